@@ -5,7 +5,16 @@ Correspondence  kawin.diffusion.{Diffusion,SinglePhase,Homogenization,DiffusionP
 The REAL SinglePhaseModel / HomogenizationModel are driven with duck-typed thermodynamics stubs; every
 `_getFluxes` evaluation is logged by wrapping methods at run time (raw fluxes before the boundary conditions, fluxes
 after them, dXdt, iterator input/output, postProcess output, setup output) and replayed through the model driver.
-The direct oracle evaluates the property on the logged implementation states, independently of the Lean model."""
+The direct oracle evaluates the property on the logged implementation states, independently of the Lean model.
+
+Round 4: (a) described profile / boundary values are also drawn from every regime relative to minComposition (0, below min, min,
+inside (min,(n+1)min), the ends of that window, just above it, near 1-min, 1) for minComposition 1e-10..1e-3; oracle at t = 0 on
+model.x after setup() and on the first recorded profile (every component, the dependent one included), and the budget over the first
+postProcess when the state handed to it was out of bounds.  (b) boundary conditions are entered through HISTORIES of calls of every
+public entry point (setBoundaryCondition with constants or strings, setLeft/RightBoundaryCondition, DiffusionModel.setBC, on the object
+the model made or on one passed to the constructor; earlier calls overwritten, foreign names, invalid arguments); the stored
+dictionaries are compared with the specification after every call and with the Lean model (verb dif.bcops); `entry_cases` runs such
+histories alone on a bare DiffusionModel."""
 import contextlib, io, math, os, traceback, warnings
 import numpy as np
 import vlib
@@ -13,7 +22,7 @@ from vlib import Result, enc_list, enc_ilist, f2b, Toks, close
 
 PROP = 'C04'
 META = {
-    'level_text': 'Lean 4 theorems, for every mesh size, element count, interior face fluxes (any function of call history and state), step list and boundary-condition mix, about an executable model of getdXdt / applyBoundaryConditionsToFluxes / the Euler and RK4 iterators / postProcess clip / setup / the volume-fixed-frame line: telescoping budget, one-step budget for Euler and RK4 (b-weighted stage boundary fluxes), budget and closed-system constancy over any number of steps and any number of consecutive solve calls (induction), fixed-composition nodes pinned through every stage and step, flux conditions written to the right face per side and element, bounds after postProcess and after setup, setup idempotent (after the repair recorded in known_findings.txt; the unrepaired setup is proved to drift by exactly len(elements)*minComposition per call), volume-fixed fluxes sum to zero.  The model is tied to the code on every run by replaying logged runs of the real model classes; the property predicate is also evaluated directly on the logged states.',
+    'level_text': 'Lean 4 theorems, for every mesh size, element count, interior face fluxes (any function of call history and state), step list and boundary-condition mix, about an executable model of getdXdt / applyBoundaryConditionsToFluxes / the Euler and RK4 iterators / postProcess clip / setup / the volume-fixed-frame line: telescoping budget, one-step budget for Euler and RK4 (b-weighted stage boundary fluxes), budget and closed-system constancy over any number of steps and any number of consecutive solve calls (induction), fixed-composition nodes pinned through every stage and step, flux conditions written to the right face per side and element, bounds after postProcess and after setup, setup idempotent (after the repair recorded in known_findings.txt; the unrepaired setup is proved to drift by exactly len(elements)*minComposition per call), volume-fixed fluxes sum to zero; setup keeps every component, the dependent one included, within [min, 1-min] for every described value, element count and minimum composition (setup_ge_min, setup_dependent_bounds; the merged single-np.where form of the shift/clamp pair is proved to end below min on the whole window (min, (n+1)min): shiftClampMerged_below, setupMerged_violates_bounds); the boundary-condition entry points (setBoundaryCondition, setLeft/RightBoundaryCondition, DiffusionModel.setBC, constructor object) as functions into the four dictionaries: each helper writes its own side and key only (setRight_writes_right, setLeft_writes_left, setBC_writes_both; witness setRightSwapped_wrong/_witness), invalid side/type raise and write nothing, last write wins over any history of calls (last_write_left/right), and an entered condition reaches the run on that side (entered_*_comp_pinned, entered_*_flux_face).  The model is tied to the code on every run by replaying logged runs of the real model classes; the property predicate is also evaluated directly on the logged states.',
     'level_note': 'Trusted: Lean kernel + Mathlib (axioms propext/Classical.choice/Quot.sound); the hand model equals the NumPy code only as far as this run compared them. Exact-field arithmetic instead of IEEE doubles (sums compared with rtol 1e-9 of the summed magnitudes plus a few ulp of the mesh sum). Interior fluxes, the time-step choice (getDt) and the profile builders are inputs of the model, not modelled: the budget holds for any of them. The budget after postProcess is claimed only for steps where the clip is inactive (clip-active steps are counted in the histogram; the pre-clip budget is checked on every step). Real thermodynamics (pycalphad) only in the thorough tier.',
     'technique': 'Lean 4 proof over ordered fields + logged-run replay correspondence + direct oracle on the implementation',
     'design_ref': 'DESIGN.md section 6, C04',
